@@ -10,6 +10,7 @@ import (
 	"fmt"
 	"go/types"
 	"hash"
+	"math/big"
 	"strings"
 	"sync/atomic"
 
@@ -61,7 +62,15 @@ func intArg(v Value) int {
 	return int(sext64(t.k, t.w))
 }
 
+func (r *Run) freshScalarS(name string, w int, input bool) *Term {
+	return r.freshScalarX(name, w, input, true)
+}
+
 func (r *Run) freshScalar(name string, w int, input bool) *Term {
+	return r.freshScalarX(name, w, input, false)
+}
+
+func (r *Run) freshScalarX(name string, w int, input bool, signed bool) *Term {
 	n := r.uniqueName(name)
 	if r.eng.inInit {
 		panic(unsupported("symbolic input created during package initialisation"))
@@ -72,6 +81,12 @@ func (r *Run) freshScalar(name string, w int, input bool) *Term {
 			kind = "bool"
 		}
 		r.inputs = append(r.inputs, inputVar{name: n, kind: kind, w: w})
+	}
+	if r.ts.intMode && w > 0 {
+		if signed {
+			return r.ts.IVar(n, new(big.Int).Neg(pow2(w-1)), new(big.Int).Sub(pow2(w-1), bigOne))
+		}
+		return r.ts.IVar(n, bigZero, new(big.Int).Sub(pow2(w), bigOne))
 	}
 	return r.ts.Var(n, w)
 }
@@ -86,7 +101,11 @@ func (r *Run) freshBytes(name string, n int, input bool) []*Term {
 	}
 	out := make([]*Term, n)
 	for i := range out {
-		out[i] = r.ts.Var(fmt.Sprintf("%s[%d]", nm, i), 8)
+		if r.ts.intMode {
+			out[i] = r.ts.IVar(fmt.Sprintf("%s[%d]", nm, i), bigZero, big.NewInt(255))
+		} else {
+			out[i] = r.ts.Var(fmt.Sprintf("%s[%d]", nm, i), 8)
+		}
 	}
 	return out
 }
@@ -111,9 +130,9 @@ func init() {
 		zz + "U16":  func(r *Run, fn *ssa.Function, a []Value) Value { return r.freshScalar(strArg(a[0]), 16, true) },
 		zz + "U32":  func(r *Run, fn *ssa.Function, a []Value) Value { return r.freshScalar(strArg(a[0]), 32, true) },
 		zz + "U64":  func(r *Run, fn *ssa.Function, a []Value) Value { return r.freshScalar(strArg(a[0]), 64, true) },
-		zz + "I32":  func(r *Run, fn *ssa.Function, a []Value) Value { return r.freshScalar(strArg(a[0]), 32, true) },
-		zz + "I64":  func(r *Run, fn *ssa.Function, a []Value) Value { return r.freshScalar(strArg(a[0]), 64, true) },
-		zz + "Int":  func(r *Run, fn *ssa.Function, a []Value) Value { return r.freshScalar(strArg(a[0]), 64, true) },
+		zz + "I32":  func(r *Run, fn *ssa.Function, a []Value) Value { return r.freshScalarS(strArg(a[0]), 32, true) },
+		zz + "I64":  func(r *Run, fn *ssa.Function, a []Value) Value { return r.freshScalarS(strArg(a[0]), 64, true) },
+		zz + "Int":  func(r *Run, fn *ssa.Function, a []Value) Value { return r.freshScalarS(strArg(a[0]), 64, true) },
 		zz + "Bool": func(r *Run, fn *ssa.Function, a []Value) Value { return r.freshScalar(strArg(a[0]), 0, true) },
 		zz + "Len": func(r *Run, fn *ssa.Function, a []Value) Value {
 			name, lo, hi := strArg(a[0]), intArg(a[1]), intArg(a[2])
@@ -335,7 +354,7 @@ func init() {
 			y := StrV{b: r.sliceBytes(a[1].(*SliceV))}
 			lt := r.strLess(x, y, false)
 			eq := r.eqVal(x, y)
-			m1 := r.ts.Const(64, ^uint64(0))
+			m1 := r.constI64(-1)
 			return r.ts.Ite(lt, m1, r.ts.Ite(eq, r.ts.Const(64, 0), r.ts.Const(64, 1)))
 		},
 		"internal/bytealg.Count": func(r *Run, fn *ssa.Function, a []Value) Value {
@@ -539,7 +558,7 @@ func (r *Run) indexByte(b []*Term, c *Term) Value {
 			return r.ts.Const(64, uint64(i))
 		}
 	}
-	return r.ts.Const(64, ^uint64(0))
+	return r.constI64(-1)
 }
 
 func (r *Run) countByte(b []*Term, c *Term) Value {
@@ -560,7 +579,7 @@ func (r *Run) indexSub(b, sep []*Term) Value {
 			return r.ts.Const(64, uint64(i))
 		}
 	}
-	return r.ts.Const(64, ^uint64(0))
+	return r.constI64(-1)
 }
 
 // ----- hash ghosts --------------------------------------------------------------------------
